@@ -545,19 +545,37 @@ func emitCoq(module string, pos []*PosRead, vals []*ValueCompare, quoted, spaced
 		lines = append(lines, fmt.Sprintf("(%s, %d%%N)", coqStr(e.Key), e.Count))
 	}
 	emitList(&b, "Definition spaced_flag_reads : list (string * N) :=", lines)
+	// convenience for reports only: the Coq checker recomputes the hit from the constants and Gen.TokenTable
+	b.WriteString("\n(* keys of the \"case-sensitive\" value_compares entries one of whose constants is, ASCII case-insensitively, a keyword spelling *)\n")
+	lines = nil
+	for _, e := range vals {
+		if e.Class == "case-sensitive" && e.KeywordHit {
+			lines = append(lines, coqStr(e.Key))
+		}
+	}
+	emitList(&b, "Definition keyword_hit_keys : list string :=", lines)
 	return b.String()
 }
 
 type allowEntry struct {
-	Key string `json:"key"`
-	Why string `json:"why"`
+	Key     string `json:"key"`
+	Why     string `json:"why"`
+	Example string `json:"example,omitempty"`
+}
+
+// knownFindings: sites that are PRESENT AND REPORTED, NOT justified (they are violations of the property that
+// the maintainer knows about); kept apart from the allow-lists so that nothing reads them as a justification.
+type knownFindings struct {
+	PositionLeaks        []allowEntry `json:"position_leaks"`
+	CaseSensitiveKeyword []allowEntry `json:"case_sensitive_keyword"`
 }
 
 type allowFile struct {
-	Comment       string       `json:"comment"`
-	Spaced        []allowEntry `json:"spaced_detection"`
-	CaseSensitive []allowEntry `json:"case_sensitive_keyword_compares"`
-	FlagReads     []allowEntry `json:"spaced_flag_reads"`
+	Comment       string        `json:"comment"`
+	Spaced        []allowEntry  `json:"spaced_detection"`
+	CaseSensitive []allowEntry  `json:"case_sensitive_keyword_compares"`
+	FlagReads     []allowEntry  `json:"spaced_flag_reads"`
+	Known         knownFindings `json:"known_findings"`
 }
 
 func readAllow(path string) (*allowFile, bool) {
@@ -601,6 +619,9 @@ func emitAllowed(path string, af *allowFile, present bool) string {
 	emitList(&b, "Definition allowed_spaced : list string :=", keys(af.Spaced))
 	emitList(&b, "Definition allowed_case_sensitive : list string :=", keys(af.CaseSensitive))
 	emitList(&b, "Definition allowed_spaced_flag_reads : list string :=", keys(af.FlagReads))
+	b.WriteString("(* KNOWN FINDINGS: present and reported, NOT justified *)\n")
+	emitList(&b, "Definition known_position_leaks : list string :=", keys(af.Known.PositionLeaks))
+	emitList(&b, "Definition known_case_sensitive : list string :=", keys(af.Known.CaseSensitiveKeyword))
 	return b.String()
 }
 
@@ -859,6 +880,7 @@ func main() {
 	}
 	as, ac, afl := allowSet(af.Spaced), allowSet(af.CaseSensitive), allowSet(af.FlagReads)
 	rep.Allowed["spaced_detection"], rep.Allowed["case_sensitive_keyword_compares"], rep.Allowed["spaced_flag_reads"] = len(as), len(ac), len(afl)
+	rep.Allowed["known_findings.position_leaks"], rep.Allowed["known_findings.case_sensitive_keyword"] = len(allowSet(af.Known.PositionLeaks)), len(allowSet(af.Known.CaseSensitiveKeyword))
 	usedS, usedC, usedF := map[string]bool{}, map[string]bool{}, map[string]bool{}
 	rep.NotAllowed["spaced_detection"], rep.NotAllowed["case_sensitive_keyword_compares"], rep.NotAllowed["spaced_flag_reads"], rep.NotAllowed["other"] = []string{}, []string{}, []string{}, []string{}
 	for _, e := range pos {
@@ -914,16 +936,16 @@ func main() {
 			Spaced: []allowEntry{}, CaseSensitive: []allowEntry{}, FlagReads: []allowEntry{}}
 		for _, e := range pos {
 			if e.Class == "spaced-detection" {
-				p.Spaced = append(p.Spaced, allowEntry{e.Key, "TODO " + strings.Join(e.Where, " ")})
+				p.Spaced = append(p.Spaced, allowEntry{Key: e.Key, Why: "TODO " + strings.Join(e.Where, " ")})
 			}
 		}
 		for _, e := range vals {
 			if e.Class == "case-sensitive" && e.KeywordHit {
-				p.CaseSensitive = append(p.CaseSensitive, allowEntry{e.Key, "TODO " + strings.Join(e.Where, " ") + " constants " + strings.Join(e.KeywordHits, ",")})
+				p.CaseSensitive = append(p.CaseSensitive, allowEntry{Key: e.Key, Why: "TODO " + strings.Join(e.Where, " ") + " constants " + strings.Join(e.KeywordHits, ",")})
 			}
 		}
 		for _, e := range spaced {
-			p.FlagReads = append(p.FlagReads, allowEntry{e.Key, "TODO " + strings.Join(e.Where, " ")})
+			p.FlagReads = append(p.FlagReads, allowEntry{Key: e.Key, Why: "TODO " + strings.Join(e.Where, " ")})
 		}
 		pd, err := json.MarshalIndent(p, "", " ")
 		must(err)
